@@ -87,7 +87,7 @@ func loadProg(dir, goarch string) (*Prog, error) {
 	if mod == "" {
 		return nil, fmt.Errorf("cannot determine main module path")
 	}
-	sprog, _ := ssautil.AllPackages(pkgs, ssa.BuilderMode(0))
+	sprog, _ := ssautil.AllPackages(pkgs, ssa.InstantiateGenerics)
 	sprog.Build()
 
 	pr := &Prog{Dir: dir, Mod: mod, Arch: goarch, SSA: sprog, ByKey: map[string]*ssa.Function{},
